@@ -23,7 +23,8 @@ type RunOp struct {
 
 // Op is one step of a history.
 type Op struct {
-	// Kind: run | edit | delete | delsum | corruptsum | unhashable | converge |
+	// Kind: run | edit | touch (append a comment to source file Path of package K, rendered from the
+	// current spec) | retag (change the tags of a declaration in place) | delete | delsum | corruptsum | unhashable | converge |
 	// recover (C02-E4: repeat the previous All run fault-free until it converges)
 	Kind    string `json:"kind"`
 	Run     *RunOp `json:"run,omitempty"`
@@ -32,6 +33,8 @@ type Op struct {
 	How     string `json:"how,omitempty"`
 	K       int    `json:"k,omitempty"`
 	Note    string `json:"note,omitempty"`
+	// retag: the new tags of declaration Path in package K (same number of lines: positions do not move)
+	Tags []Tag `json:"tags,omitempty"`
 }
 
 // Variant is one continuation of the world built by Setup.
@@ -51,6 +54,9 @@ type Scenario struct {
 	Setup    []Op        `json:"setup,omitempty"`
 	Variants []Variant   `json:"variants,omitempty"`
 	Infl     *InflCase   `json:"infl,omitempty"`
+	// UniformGens: every run of the history uses the same generators, scripts and globals, so the final
+	// state of every local package is determined by the spec alone (C07-T5).
+	UniformGens bool `json:"uniform_gens,omitempty"`
 	// UniAll: report every package of the closure (std included), not only the module's.
 	UniAll bool `json:"uni_all,omitempty"`
 	// ExternalRoot: load an existing module read-only instead of a synthetic one (C13 on /repo's closure).
